@@ -49,6 +49,25 @@ CLAIMED = {
    text="Theorem export_spec (entry i = values of particle i, any value count, any ordering) about the model of the export loops, plus the refutation of the pre-repair index expression; implementation: real getAllParticlesData/Rhs under ASan before/after rebuild, identity and bit-exact value checks.",
    note="As C07. The defect found (transposed indexing, out of bounds) is repaired by a fix: commit and listed as fixed in known_findings.json.",
    technique="Coq proof + differential test under ASan"),
+ "C03": dict(level="proof", ref="DESIGN.md §6 C03",
+   text="Theorems: determinism of every legal schedule for task lists whose bodies touch only declared locations; the OpenMP task model (same loops as the sequential model, tasks declaring whole-group buffers) is well-formed for every tree satisfying the invariant and performs the sequential calls, hence equals the sequential executor and is exactly-once under every legal schedule. The task submission sites (depend clauses, firstprivate lists, body references, lambda context) are regenerated from the source on every run and re-checked (descriptor theorem). The real executors run under a mock GOMP runtime over deferred FIFO/LIFO/priority/random schedules with ASan stack-use-after-return detection.",
+   note="Trusted: Coq kernel; tools/translate_omp.py (regex reading of the pragmas); harness/mock_gomp.hpp (GOMP ABI, OpenMP 4.5 dependence semantics); C++ DRF-SC; extraction/driver/harness. Specx/StarPU executors: not exercised (runtimes absent); covered at source-text level only by the include-guard check of C19.",
+   technique="Coq proof (schedule determinism + task model refinement) + descriptors regenerated from source + mock-runtime schedule search"),
+ "C10": dict(level="other", ref="DESIGN.md §6 C10",
+   text="Executable Gallina model of the periodic four-step sequence (periodic Morton lists inside the box + the top tree's literal call sequence, repetition interval formulas), extracted and compared call by call with the real TbfAlgorithm + TbfAlgorithmPeriodicTopTree; an image-aware exactly-additive kernel (a displacement by sigma boxes multiplies by chi(sigma)) makes every image distinguishable and the final values are compared with the closed form over the interval the library reports. The list theorems (C11, periodic wrap), refinement theorems (per = true) and no-assert theorems cover the in-box part; the image-counting theorem for the top tree (window telescope) is not proved.",
+   note="level other: the periodic exactly-once statement over images is validated by correspondence + closed-form oracle for k=-1..5, d=1..3, not by a Coq theorem (DESIGN.md log).",
+   technique="Coq model + extracted-model call differential + image-aware closed-form oracle"),
+ "C18": dict(level="proof", ref="DESIGN.md §6 C18",
+   text="Theorems: counters are a function of the multiset of elementary interactions; any partition of the calls over kernel copies merged in any order gives the counters of the whole run; the counters of a full run equal those implied by the tree (independent of block size/mode), with explicit values; masks partitioning the operators in any order merge to the full counters. Implementation: real TbfInteractionCounter copies merged with Counters::Reduce forward/backward vs model and vs counts recomputed from the tree.",
+   note="As C01. OpenMP per-worker copies: the merge theorem covers any partition; the real OpenMP executor with the counter kernel is exercised in C03's harness family only for results.",
+   technique="Coq proof + extracted-model differential + recount oracle"),
+ "C19": dict(level="other", ref="DESIGN.md §6 C19",
+   text="'Instantiates without compile error' is decided by compiling one translation unit per configuration point from /repo (dimension x real type x ordering x block-size mode x executor, data type != coordinate type, zero result values) and the selector header with all runtimes enabled; each compiled unit runs the C01/C06/C13 checks under sanitizers. 'Like the default configuration' rests on the theorems of C01/C06/C07/C13, generic in dimension/block size/mode.",
+   note="Compilation is outside what a Gallina model can express (DESIGN.md).", technique="compile matrix + generic Coq theorems"),
+ "C20": dict(level="proof", ref="DESIGN.md §6 C20",
+   text="The three scalar routines are one generic Gallina term over an abstract arithmetic. Real-number instance: theorems pair_law, remote_law, mutual_split, contrib_antisym, inner_law (exact arithmetic, distinct positions). IEEE instances (Coq SpecFloat binary64/binary32, extracted) must be BIT-IDENTICAL to the C++ on every case, which pins the C++ operation structure to the term the laws are about; results also match a 60-digit reference to rounding.",
+   note="Axioms: classical reals of Coq's stdlib (sig_forall_dec, sig_not_dec, functional_extensionality_dep). Rounding-error bound itself is measured (tolerance 8(n+2)u), not proved. Vectorised path absent in this build.",
+   technique="Coq proof over reals + bit-exact SpecFloat differential + extended-precision oracle"),
 }
 NOT_YET = {}
 ALL = ["C%02d" % i for i in range(1, 21)]
